@@ -355,6 +355,52 @@ def main(chk):
   if not np.allclose(y[..., mask], ((x - mu) / np.sqrt(var + eps))[..., mask], rtol=1e-4, atol=1e-4):
     chk.violation('C12:norm:mask', 'masked LayerNorm statistics include masked-out elements', {})
 
+  # masks "of shape broadcastable to the inputs": every broadcastable form of one mask gives what its full-shape form gives
+  xm = jnp.asarray(ints((2, 3, 4), -5, 6).astype(np.float32))
+  full = np.ones((2, 3, 4), bool)
+  full[0, 0, :] = False
+  full[1, 2, :] = False
+  forms = {'(2,3,1)': full[:, :, :1], '(2,3,4)': full}
+  col = np.ones((1, 3, 1), bool)
+  col[0, 1, 0] = False
+  forms2 = {'(1,3,1)': col, '(3,1)': col[0]}
+  mk_layers = {
+    'LayerNorm(axes 1,2)': (lambda: nn.LayerNorm(epsilon=eps, reduction_axes=(1, 2), use_scale=False, use_bias=False),
+                            lambda: nnx.LayerNorm(4, epsilon=eps, reduction_axes=(1, 2), use_scale=False, use_bias=False, rngs=nnx.Rngs(0))),
+    'GroupNorm(2 groups)': (lambda: nn.GroupNorm(num_groups=2, epsilon=eps, use_scale=False, use_bias=False),
+                            lambda: nnx.GroupNorm(4, num_groups=2, epsilon=eps, use_scale=False, use_bias=False, rngs=nnx.Rngs(0))),
+    'InstanceNorm': (lambda: nn.InstanceNorm(epsilon=eps, use_scale=False, use_bias=False), None),
+    'BatchNorm': (lambda: nn.BatchNorm(use_running_average=False, epsilon=eps, use_scale=False, use_bias=False),
+                  lambda: nnx.BatchNorm(4, use_running_average=False, epsilon=eps, use_scale=False, use_bias=False, rngs=nnx.Rngs(0))),
+  }
+  for lname, (mk_lin, mk_nnx) in mk_layers.items():
+    for group in (forms, forms2):
+      ref_mask = np.broadcast_to(next(iter(group.values())), (2, 3, 4))
+      for api, mk in (('linen', mk_lin), ('nnx', mk_nnx)):
+        if mk is None:
+          continue
+
+        def run(mask):
+          if api == 'linen':
+            layer = mk()
+            return np.asarray(layer.apply(layer.init(jax.random.key(0), xm), xm, mask=jnp.asarray(mask), mutable=['batch_stats'])[0])
+          return np.asarray(mk()(xm, mask=jnp.asarray(mask)))
+        try:
+          want = run(ref_mask)
+        except Exception as e:
+          chk.violation(f'C12:norm:mask-forms:{api}.{lname}', f'full-shape mask raised {type(e).__name__}: {str(e)[:120]}', {})
+          continue
+        for fname, m in group.items():
+          key = f'C12:norm:mask-forms:{api}.{lname}:mask{fname}'
+          chk.count(key)
+          try:
+            got = run(m)
+          except Exception as e:
+            chk.violation(key, f'a mask of shape {fname} (broadcastable to the inputs (2,3,4)) raised {type(e).__name__}: {str(e)[:140]}', {})
+            continue
+          if got.shape != want.shape or not np.allclose(got, want, rtol=1e-5, atol=1e-5, equal_nan=True):
+            chk.violation(key, f'a mask of shape {fname} gives another result than the same mask broadcast to the input shape', {})
+
   # ------------------------------------------------------------------------------------------------ Dropout
   for rate in (0.0, 0.25, 0.5, 1.0):
     for det in (False, True):
